@@ -826,13 +826,22 @@ impl<'a, 'h> Interp<'a, 'h> {
 
     #[inline(never)]
     fn eval_interp(&mut self, segs: &'a [InterpSeg], fr: &mut Frame<'a>) -> R<Value> {
+        // Luau compiles `a{x}b{y}` to ("a%*b%*"):format(x, y): every expression is evaluated
+        // first (left to right), the conversions to string (and their __tostring calls) follow
+        let mut values: Vec<Value> = Vec::new();
+        for s in segs {
+            if let InterpSeg::Expr(x) = s {
+                values.push(self.eval(x, fr)?);
+            }
+        }
         let mut out: Vec<u8> = Vec::new();
+        let mut k = 0;
         for s in segs {
             match s {
                 InterpSeg::Str(b) => out.extend_from_slice(b),
-                InterpSeg::Expr(x) => {
-                    let v = self.eval(x, fr)?;
-                    let b = self.tostring_bytes(&v)?;
+                InterpSeg::Expr(_) => {
+                    let b = self.tostring_bytes(&values[k])?;
+                    k += 1;
                     out.extend_from_slice(&b);
                 }
             }
